@@ -237,7 +237,8 @@ func (model Model) AddPolicy(sec string, ptype string, rule []string) error {
 			i := len(assertion.Policy) - 1
 			for ; i > 0; i-- {
 				idx, err := strconv.Atoi(assertion.Policy[i-1][assertion.FieldIndexMap[constant.PriorityIndex]])
-				if err != nil || idx <= idxInsert {
+				// rules whose priority does not parse sort after all others (as in SortPoliciesByPriority)
+				if err == nil && idx <= idxInsert {
 					break
 				}
 				assertion.Policy[i] = assertion.Policy[i-1]
